@@ -806,7 +806,9 @@ func (b *Builder) planReplace() stepPlan {
 		add := b.toAdd[i]
 		for _, j := range b.toRemove.IDs() {
 			remove := b.toRemove[j]
-			if core.IsLearner(remove) == core.IsLearner(add) {
+			// The store of `add` must be free: without demote support a voter -> learner
+			// change is a remove + add on the same store, and the add has to wait for it.
+			if core.IsLearner(remove) == core.IsLearner(add) && b.currentPeers[i] == nil {
 				best = b.planReplaceLeaders(best, stepPlan{add: add, remove: remove})
 			}
 		}
@@ -817,7 +819,8 @@ func (b *Builder) planReplace() stepPlan {
 		for _, j := range b.toAdd.IDs() {
 			if add := b.toAdd[j]; core.IsLearner(add) {
 				for _, k := range b.toRemove.IDs() {
-					if remove := b.toRemove[k]; !core.IsLearner(remove) && j != k {
+					// `add` needs a free store (in particular j != k).
+					if remove := b.toRemove[k]; !core.IsLearner(remove) && b.currentPeers[j] == nil {
 						best = b.planReplaceLeaders(best, stepPlan{promote: promote, add: add, remove: remove})
 					}
 				}
@@ -914,6 +917,10 @@ func (b *Builder) planAddPeer() stepPlan {
 	var best stepPlan
 	for _, i := range b.toAdd.IDs() {
 		a := b.toAdd[i]
+		if b.currentPeers[i] != nil {
+			// The store is occupied until the old peer is removed.
+			continue
+		}
 		for _, leader := range b.currentPeers.IDs() {
 			if b.allowLeader(b.currentPeers[leader], false) {
 				best = b.comparePlan(best, stepPlan{add: a, leaderBeforeAdd: leader})
